@@ -25,4 +25,7 @@ theorem table_rows_printable : ∀ r ∈ Gen.kindTable, r.2.dbg = r.1 := table_r
 theorem never_another_kind (v : SerdeTag) : (decode v).kind = v.kind ∨ decode v = .unknown := decode_total v
 theorem decoded_is_well_formed (v : SerdeTag) : (decode v).wf := decode_wf v
 
+/-- every event: the whole tag list survives (each tag by `round_trip`) -/
+theorem event_tags_round_trip (ts : List Tag) (h : ∀ t ∈ ts, t.wf) : (ts.map encode).map decode = ts := tags_round_trip ts h
+
 end Props.C16
